@@ -6,7 +6,7 @@ from .C01 import cmp_obs, spec_obs
 SPEC = dict(
     manifest=dict(
         category='proof',
-        text="Lean proves (Proofs/CellSpec.lean, 750 lines) that for every spec-valid tree with pruned branches of any mask 1..7, library cells, Merkle proofs/updates in any nesting, the model of the constructor succeeds and reports exactly the spec's level mask and per-level hash/depth at every level (loop invariant over calculate_hashes vs. level recursion of the spec); pruning invariance is proved for ALL Merkle depths (Proofs/Prune.lean, c02_prune_invariant_spec / c02_prune_invariant): if t' is t with any set of subtrees replaced by pruned branches of mask (mask s % 2^(d-1)) | 2^(d-1) carrying hashAt/depthAt s l for the significant l < d (d grows by one under every Merkle cell), then for every l < d hash, depth and the mask bits below l of t' are those of t (d = 1: the level-0 hash of every enclosing cell is unchanged), with no assumption on the hash function; at model level (Cell.info) under spec-validity of both trees; and it is tested through the library. Tie: correspondence library = model = Lean spec = independent Python spec on generated exotic trees, prunings and malformed cells.",
+        text="Lean proves (Proofs/CellSpec.lean, 750 lines) that for every spec-valid tree with pruned branches of any mask 1..7, library cells, Merkle proofs/updates in any nesting, the model of the constructor succeeds and reports exactly the spec's level mask and per-level hash/depth at every level (loop invariant over calculate_hashes vs. level recursion of the spec); pruning invariance is proved for ALL Merkle depths (Proofs/Prune.lean, c02_prune_invariant_spec / c02_prune_invariant): if t' is t with any set of subtrees replaced by pruned branches of mask (mask s % 2^(d-1)) | 2^(d-1) carrying hashAt/depthAt s l for the significant l < d (d grows by one under every Merkle cell), then for every l < d hash, depth and the mask bits below l of t' are those of t (d = 1: the level-0 hash of every enclosing cell is unchanged), with no assumption on the hash function; at model level (Cell.info) under spec-validity of both trees; and it is tested through the library. Tie: correspondence library = model = Lean spec = independent Python spec on generated exotic trees, prunings and malformed cells; in addition LevelMask.get_level/get_hash_index/apply/is_significant, the descriptors and the pruned-branch hash/depth offsets are re-translated from exotic.py/cell.py to Lean on every run and proved equal to the helpers of the hand model and the offsets of the spec for ALL masks and levels (c02_src_*).",
         level_note='Trusted: Lean kernel, Spec/Cell.lean as the TON rule (cross-checked against an independent Python transcription on every run), Model/Cell.lean as a hand transcription of the code (sampled correspondence), the harness.',
         technique='Lean 4 refinement proof (hand model) + differential correspondence with the library + source-regenerated arithmetic lemmas',
     ),
